@@ -648,7 +648,7 @@ dt_strpdt(const char *str, const char *fmt, char **ep)
 		/* we demand a float representation from start to finish */
 		res.d.jdn = (dt_jdn_t)strtod(str, &on);
 
-		if (UNLIKELY(*on < '\0' || *on > ' ')) {
+		if (UNLIKELY(on == str || *on < '\0' || *on > ' ')) {
 			/* nah, that's not a distinguished float */
 			goto fucked;
 		}
@@ -660,7 +660,10 @@ dt_strpdt(const char *str, const char *fmt, char **ep)
 
 	case DT_LDN:
 		res.d.ldn = (dt_ldn_t)strtoi32(str, &sp);
-		if (*sp == '.') {
+		if (UNLIKELY(sp == str)) {
+			/* not a single digit */
+			goto fucked;
+		} else if (*sp == '.') {
 			/* oooh, a double it seems */
 			double tmp = strtod(sp, &on);
 
@@ -686,7 +689,10 @@ dt_strpdt(const char *str, const char *fmt, char **ep)
 
 	case DT_MDN:
 		res.d.mdn = (dt_ldn_t)strtoi32(str, &sp);
-		if (*sp == '.') {
+		if (UNLIKELY(sp == str)) {
+			/* not a single digit */
+			goto fucked;
+		} else if (*sp == '.') {
 			/* oooh, a double it seems */
 			double tmp = strtod(sp, &on);
 
